@@ -397,19 +397,19 @@ class Interp(object):
     return [sym.select(c, v[1], v[2])]
 
   # reductions
-  def _reduce(self, op, v, f):
+  def _reduce(self, op, v, f, empty=None):
     axes = _ints(v[1])
     if np.asarray(v[0]).ndim == 0:
       return [v[0]]
     if len(axes) == 0 and np.asarray(v[1]).size == 0:
       return [v[0]]
-    return [sym.reduce(f, v[0], axes, op.get_attr('keep_dims'))]
+    return [sym.reduce(f, v[0], axes, op.get_attr('keep_dims'), empty=empty)]
 
   def op_Sum(self, op, v):
-    return self._reduce(op, v, sym.add)
+    return self._reduce(op, v, sym.add, empty=0)
 
   def op_Prod(self, op, v):
-    return self._reduce(op, v, sym.mul)
+    return self._reduce(op, v, sym.mul, empty=1)
 
   def op_Max(self, op, v):
     return self._reduce(op, v, sym.maximum)
@@ -798,6 +798,25 @@ class Interp(object):
     for i in range(n):
       out[i] = Fraction(vals[0]) + i * Fraction(vals[2])
     return [out]
+
+  def op_InvertPermutation(self, op, v):
+    perm = _ints(v[0])
+    inv = [0] * len(perm)
+    for i, p_ in enumerate(perm):
+      inv[p_] = i
+    return [sym.obj(np.array(inv, dtype=np.int32))]
+
+  def op_ConcatOffset(self, op, v):
+    ax = _int(v[0])
+    outs = []
+    off = 0
+    for shp in v[1:]:
+      s_ = _ints(shp)
+      o = [0] * len(s_)
+      o[ax] = off
+      off += s_[ax]
+      outs.append(sym.obj(np.array(o, dtype=np.int32)))
+    return outs
 
   def op_ReverseV2(self, op, v):
     return [np.flip(v[0], axis=tuple(_ints(v[1])))]
